@@ -375,3 +375,7 @@ def run(repo: Repo, rep: Report, tier: str) -> None:
     literal_rule(repo, rep, "C20.R7")
     fresh_generation_rule(repo, rep, "C20.R8")
     rename_once_rule(repo, rep, "C20.R9")
+    from .memo import memo_rule
+
+    memo_rule(repo, rep, "C20.R10")
+
